@@ -7,8 +7,6 @@ from vlib import render as RR
 
 ID = "C07"
 PROP_FILE = "Props/C07.v"
-THEOREMS = ["C07_words_spec", "C07_style", "C07_camel_is_mixed", "C07_table", "C07_lower_upper", "C07_uniform", "C07_explicit_not_recased",
-            "C07_nonvacuous"]
 RULE = ("(a) generator level, through genprobe (the real convert_case / snakify / CaseStyle::from_str of /repo's working tree): "
         "EVERY valid identifier over {a,b,A,B,1,_} up to length 6 (quick) / 8 (thorough) x the 11 styles + no style + snakify, "
         "compared by FNV digests per block of 4096 identifiers (exhaustive for that bound), every identifier up to length 4 and a "
